@@ -157,6 +157,43 @@ Definition exL (w : bworld) (k : nat) : Z :=
 Definition step_delta (w w' : bworld) (b : nat) (da dl : Z) : Prop :=
   forall k, exA w' k = exA w k + (if (b =? k)%nat then da else 0) /\ exL w' k = exL w k + (if (b =? k)%nat then dl else 0).
 
+(* generic step: replacing one located slot and its bank *)
+Lemma put_ledger w a b bk la bkc now (create : bool) i la1 bl bk' bl' da dl :
+  Ledger w -> nth_res b (bw_banks w) = Ok bk -> nth_res a (bw_accts w) = Ok la ->
+  (if create then wrapper_find_or_create (bank_pk b) bkc la now else let* i := wrapper_find (bank_pk b) la in Ok (i, la)) = (Ok (i, la1) : res (nat * laccount)) ->
+  nth_res i la1 = Ok bl ->
+  slot_ok (bank_pk b) bk bl bk' bl' da dl ->
+  Ledger (put w a b bk' (set_nth i bl' la1)) /\ step_delta w (put w a b bk' (set_nth i bl' la1)) b da dl.
+Proof.
+  intros L Hbk Hla Hloc Hbl (Hsv' & Hwbl' & Hoth & Hda & Hdl & Hda0 & Hdl0).
+  pose proof (nth_res_ok _ _ _ Hbk) as Ebk. pose proof (nth_res_ok _ _ _ Hla) as Ela.
+  pose proof (Forall_nth_error _ _ _ _ (lg_wf w L) Ela) as Hwla.
+  destruct (slot_located _ _ _ _ _ _ _ _ Hloc Hbl Hwla) as (Hact & Hbank & Hwbl & Hwla1 & Hsum).
+  pose proof (nth_res_ok _ _ _ Hbl) as Ebl.
+  assert (Hex : step_delta w (put w a b bk' (set_nth i bl' la1)) b da dl).
+  { intros k. unfold exA, exL, bank_of, put. cbn [bw_accts bw_banks].
+    rewrite !(wsum_set_nth _ _ _ _ _ Ela), !(lsum_set_nth _ _ _ _ _ Ebl).
+    destruct (Hsum (bank_pk k)) as [-> ->].
+    destruct (Nat.eq_dec b k) as [<-|Hne].
+    - rewrite (nth_set_nth_same _ _ _ _ Ebk), Ebk, Nat.eqb_refl. lia.
+    - rewrite nth_set_nth_other by assumption. replace (b =? k)%nat with false by lia.
+      destruct (nth_error (bw_banks w) k) as [bkk|]; [|lia].
+      assert (Hpk : bank_pk k <> bank_pk b) by (intros E; apply bank_pk_inj in E; congruence).
+      destruct (Hoth _ Hpk) as [-> ->].
+      assert (Hbk2 : bl_bank bl <> bank_pk k) by congruence.
+      destruct (ca_other (bank_pk k) bl Hact Hbk2) as [-> ->]. lia. }
+  split; [|exact Hex].
+  constructor; unfold put; cbn [bw_accts bw_banks].
+  - apply Forall_set_nth; [exact (lg_wf w L)|]. apply Forall_set_nth; assumption.
+  - apply Forall_set_nth; [exact (lg_sv w L)|assumption].
+  - intros k bkk Hk. destruct (Hex k) as [E1 E2]. unfold exA, exL, bank_of, put in E1, E2, Hk.
+    cbn [bw_accts bw_banks] in E1, E2, Hk. rewrite Hk in E1, E2.
+    destruct (Nat.eq_dec b k) as [<-|Hne].
+    + rewrite Ebk in E1, E2. destruct (lg_tot w L b bk Ebk). destruct (b =? b)%nat; lia.
+    + rewrite nth_set_nth_other in Hk by assumption. unfold bank_of in *. rewrite Hk in E1, E2.
+      destruct (lg_tot w L k bkk Hk). replace (b =? k)%nat with false in E1, E2 by lia. lia.
+Qed.
+
 (* generic step: an operation on one (bank, slot) *)
 Lemma with_slot_ledger (P : bank -> Z -> Z -> Prop) w a b create f w' r :
   Ledger w -> with_slot w a b create f = Ok (w', r) ->
@@ -173,31 +210,29 @@ Proof.
   destruct (slot_located _ _ _ _ _ _ _ _ Hloc Hbl Hwla) as (Hact & Hbank & Hwbl & Hwla1 & Hsum).
   destruct (Ledger_tot_nonneg w b bk L Ebk) as [Hta Htl].
   pose proof (Forall_nth_error _ _ _ _ (lg_sv w L) Ebk) as Hsv.
-  destruct (Hf _ _ _ _ _ Hsv Hta Htl Hwbl Hact Hbank Hfr) as (da & dl & (Hsv' & Hwbl' & Hoth & Hda & Hdl & Hda0 & Hdl0) & HP).
-  pose proof (nth_res_ok _ _ _ Hbl) as Ebl.
-  assert (Hex : step_delta w (put w a b bk' (set_nth i bl' la1)) b da dl).
-  { intros k. unfold exA, exL, bank_of, put. cbn [bw_accts bw_banks].
-    rewrite !(wsum_set_nth _ _ _ _ _ Ela), !(lsum_set_nth _ _ _ _ _ Ebl).
-    destruct (Hsum (bank_pk k)) as [-> ->].
-    destruct (Nat.eq_dec b k) as [<-|Hne].
-    - rewrite (nth_set_nth_same _ _ _ _ Ebk), Ebk, Nat.eqb_refl. lia.
-    - rewrite nth_set_nth_other by assumption. replace (b =? k)%nat with false by lia.
-      destruct (nth_error (bw_banks w) k) as [bkk|]; [|lia].
-      assert (Hpk : bank_pk k <> bank_pk b) by (intros E; apply bank_pk_inj in E; congruence).
-      destruct (Hoth _ Hpk) as [-> ->].
-      assert (Hbk2 : bl_bank bl <> bank_pk k) by congruence.
-      destruct (ca_other (bank_pk k) bl Hact Hbk2) as [-> ->]. lia. }
+  destruct (Hf _ _ _ _ _ Hsv Hta Htl Hwbl Hact Hbank Hfr) as (da & dl & Hso & HP).
+  destruct (put_ledger _ _ _ _ _ _ _ _ _ _ _ _ _ _ _ L Hbk Hla Hloc Hbl Hso) as (L' & Hex).
+  split; [exact L'|]. destruct Hso as (_ & _ & _ & _ & _ & Hda0 & Hdl0).
+  exists bk, da, dl. repeat (split; [assumption|]). exact Hex.
+Qed.
+
+(* sorting one account *)
+Lemma sort_ledger w a la :
+  Ledger w -> nth_res a (bw_accts w) = Ok la ->
+  Ledger (mkBW (bw_banks w) (set_nth a (sort_balances la) (bw_accts w)) (bw_now w) (bw_pf w)) /\
+  forall k, exA (mkBW (bw_banks w) (set_nth a (sort_balances la) (bw_accts w)) (bw_now w) (bw_pf w)) k = exA w k /\
+            exL (mkBW (bw_banks w) (set_nth a (sort_balances la) (bw_accts w)) (bw_now w) (bw_pf w)) k = exL w k.
+Proof.
+  intros L Hla. pose proof (nth_res_ok _ _ _ Hla) as Ela.
+  assert (Hs : forall k, wsum (ca k) (set_nth a (sort_balances la) (bw_accts w)) = wsum (ca k) (bw_accts w) /\
+                         wsum (cl k) (set_nth a (sort_balances la) (bw_accts w)) = wsum (cl k) (bw_accts w)).
+  { intros k. rewrite !(wsum_set_nth _ _ _ _ _ Ela), !lsum_sort. lia. }
   split.
-  - constructor; unfold put; cbn [bw_accts bw_banks].
-    + apply Forall_set_nth; [exact (lg_wf w L)|]. apply Forall_set_nth; assumption.
-    + apply Forall_set_nth; [exact (lg_sv w L)|assumption].
-    + intros k bkk Hk. destruct (Hex k) as [E1 E2]. unfold exA, exL, bank_of, put in E1, E2, Hk.
-      cbn [bw_accts bw_banks] in E1, E2, Hk. rewrite Hk in E1, E2.
-      destruct (Nat.eq_dec b k) as [<-|Hne].
-      * rewrite Ebk in E1, E2. destruct (lg_tot w L b bk Ebk). destruct (b =? b)%nat; lia.
-      * rewrite nth_set_nth_other in Hk by assumption. unfold bank_of in *. rewrite Hk in E1, E2.
-        destruct (lg_tot w L k bkk Hk). replace (b =? k)%nat with false in E1, E2 by lia. lia.
-  - exists bk, da, dl. repeat (split; [assumption|]). exact Hex.
+  - constructor; cbn [bw_accts bw_banks].
+    + apply Forall_set_nth; [exact (lg_wf w L)|]. apply Forall_sort. exact (Forall_nth_error _ _ _ _ (lg_wf w L) Ela).
+    + exact (lg_sv w L).
+    + intros k bkk Hk. destruct (Hs (bank_pk k)) as [-> ->]. exact (lg_tot w L k bkk Hk).
+  - intros k. unfold exA, exL, bank_of. cbn [bw_accts bw_banks]. destruct (Hs (bank_pk k)) as [-> ->]. split; reflexivity.
 Qed.
 
 (* bank-only step *)
